@@ -57,6 +57,15 @@ fn seq_family<'gc, T: Elem<'gc>>(st: &mut State<'_, 'gc>, counts: &[usize]) {
     for &n in counts {
         iter_case::<T, Vec<T>>(st, "std::Vec", "arg0", n);
         iter_case::<T, VecDeque<T>>(st, "std::VecDeque", "arg0", n);
+        // a ring buffer whose contents WRAP (second slice of `as_slices` non-empty): elements pushed at both ends
+        if st.wants("std::VecDeque") && n >= 2 {
+            let (v, d) = make_n::<T>(st, n);
+            let mut dq: VecDeque<T> = VecDeque::with_capacity(n);
+            for (i, x) in v.into_iter().enumerate() {
+                if i % 2 == 0 { dq.push_back(x) } else { dq.push_front(x) }
+            }
+            run_case(st, "std::VecDeque", p1("arg0", d), vec![], &dq);
+        }
         iter_case::<T, LinkedList<T>>(st, "std::LinkedList", "arg0", n);
         iter_case::<T, BTreeSet<T>>(st, "std::BTreeSet", "arg0", n);
         iter_case::<T, BinaryHeap<T>>(st, "std::BinaryHeap", "arg0", n);
